@@ -142,7 +142,7 @@ type vUDPRec struct{}
 
 func (vUDPRec) AddPacketFromClient(status string, clientProxyBytes, proxyTargetBytes int64) {}
 func (vUDPRec) AddPacketFromTarget(status string, targetProxyBytes, proxyClientBytes int64) {}
-func (vUDPRec) RemoveNatEntry()                                                            {}
+func (vUDPRec) RemoveNatEntry()                                                             {}
 
 type vMetrics struct {
 	mu        sync.Mutex
@@ -205,11 +205,11 @@ func (m *vMetrics) waitFor(d time.Duration, pred func() bool) bool {
 
 // ---- the harness ---------------------------------------------------------------------------------------------
 type vHarness struct {
-	t      *testing.T
-	u      vUniverse
-	out    *json.Encoder
-	outMu  sync.Mutex
-	dir    string
+	t       *testing.T
+	u       vUniverse
+	out     *json.Encoder
+	outMu   sync.Mutex
+	dir     string
 	sinkTCP net.Listener
 	sinkUDP net.PacketConn
 }
